@@ -482,7 +482,7 @@ def plan_fold(tier, rng, rep, tlcs, mods, plans):
 
 def plan_pool(tier, rng, rep, tlcs, mods, plans):
     quick = tier == "quick"
-    consts = {}     # key -> record {c, obs, dedup}
+    consts = {}     # key -> record {c, obs, tc, tobs, dedup}
     pairs = {}      # (keya, keyb) -> record
     for t in tlcs:
         for r in t.printed:
@@ -495,11 +495,13 @@ def plan_pool(tier, rng, rep, tlcs, mods, plans):
     causes = {}
     for r in pairs.values():
         causes[r["cause"]] = causes.get(r["cause"], 0) + 1
-    if not causes.get("zero-sign") or not causes.get("fset-order") or not causes.get("none"):
-        core.die("ConstPool pair classes missing: %s" % causes)
-    if any(r["fshared"] and not r["obseq"] for r in pairs.values()):
-        core.die("ConstPool: repaired key merges distinguishable constants")
-    # S vs P on every constant: Obs(c) against CPython evaluating the rendered text
+    n_near_model = sum(1 for r in pairs.values() if r["near"])
+    if not causes.get("zero-sign") or not causes.get("fset-order") or not causes.get("none") or n_near_model < 100:
+        core.die("ConstPool pair classes missing: %s near=%d" % (causes, n_near_model))
+    if not all(r["fixed_ok"] for r in pairs.values()):
+        core.die("ConstPool: the repaired key hands out a distinguishable constant")
+    # S vs P on every constant: Obs(c) against CPython evaluating the rendered text (plain and tagged form)
+    TAG0 = 1000
     text_of, want_of = {}, {}
     for k, r in consts.items():
         text_of[k] = L.render_const(r["c"])
@@ -507,14 +509,16 @@ def plan_pool(tier, rng, rep, tlcs, mods, plans):
         p = py_obs(text_of[k])
         if p != want_of[k]:
             rep.spec_drift("ConstPool.Obs vs CPython", {"src": text_of[k], "spec": want_of[k], "python": p})
+        tt, tw = L.render_const(r["tc"], TAG0), L.const_obs(r["tobs"], TAG0)
+        p = py_obs(tt)
+        if p != tw:
+            rep.spec_drift("ConstPool.Obs(Tagged) vs CPython", {"src": tt, "spec": tw, "python": p})
     for (ka, kb), r in pairs.items():
         if ka not in consts or kb not in consts:
             core.die("ConstPool: pair member was not published as a constant")
         if r["obseq"] != (want_of[ka] == want_of[kb]):
             rep.spec_drift("ConstPool.ObsEq vs observations", {"a": text_of[ka], "b": text_of[kb], "obseq": r["obseq"]})
 
-    # pack ordered pairs into modules: two pairs may share a module only if no container inside one is
-    # Python-equal to a container inside the other (then their pool entries cannot interfere)
     def sigs(c, acc):
         if c["k"] != "atom":
             acc.add(L.eq_signature(c))
@@ -522,22 +526,51 @@ def plan_pool(tier, rng, rep, tlcs, mods, plans):
                 sigs(x, acc)
         return acc
 
+    def hazard(p):      # the implementation-shaped pool hands out something else than what was written
+        return pairs[p]["cause"] != "none" or consts[p[0]]["cause"] != "none"
+
     def prio(p):
         r = pairs[p]
-        return 0 if (r["shared"] and not r["obseq"]) else 1 if r["shared"] else 2
+        return 0 if hazard(p) else 1 if r["near"] else 2 if r["shared"] else 3
+
+    def round_robin(ps, cls):
+        groups = {}
+        for p in ps:
+            groups.setdefault(cls(p), []).append(p)
+        out, k = [], 0
+        top = max([len(v) for v in groups.values()] or [0])
+        while k < top:
+            for g in sorted(groups):
+                if k < len(groups[g]):
+                    out.append(groups[g][k])
+            k += 1
+        return out
+
+    def shape(p):       # class of a pair: kinds, repeat factors, length, nesting, cause
+        a, b = pairs[p]["a"], pairs[p]["b"]
+        return json.dumps([a["k"], a["m"], b["k"], b["m"], len(a["items"]), sorted({x["k"] for x in a["items"]}),
+                           pairs[p]["cause"]])
     order = sorted(pairs)
     rng.shuffle(order)
-    order.sort(key=prio)
-    n_mod = 6 if quick else 40
+    hz = round_robin([p for p in order if prio(p) == 0], shape)
+    nm = round_robin([p for p in order if prio(p) == 1], shape)
+    sh = round_robin([p for p in order if prio(p) == 2], shape)
+    eq = round_robin([p for p in order if prio(p) == 3], shape)
+
+    # (1) plain pairs: two pairs may share a module only if no container inside one is Python-equal to a
+    #     container inside the other (then their pool entries cannot interfere)
+    front = []
+    for i in range(max(len(hz), len(nm))):
+        front += hz[i:i + 1] + nm[i:i + 1]
+    n_mod = 3 if quick else 14
     cap = 300 if quick else 450
     layers = [[] for _ in range(n_mod)]
     used = [set() for _ in range(n_mod)]
-    n_haz = dropped = 0
     start = 0
-    for p in order:
-        sg = sigs(pairs[p]["a"], set())
+    for p in front + sh + eq:
+        sg = sigs(pairs[p]["a"], set()) | sigs(pairs[p]["b"], set())
         if not sg:
-            sg = {"atom:" + L.eq_signature(pairs[p]["a"])}      # atoms: keep equal atoms apart as well
+            sg = {"atom:" + L.eq_signature(pairs[p]["a"]), "atom:" + L.eq_signature(pairs[p]["b"])}   # keep equal atoms apart as well
         for t in range(n_mod):
             i = (start + t) % n_mod
             if len(layers[i]) < cap and not (used[i] & sg):
@@ -545,9 +578,25 @@ def plan_pool(tier, rng, rep, tlcs, mods, plans):
                 used[i] |= sg
                 start = i + 1
                 break
-        else:
-            dropped += 1
-    names = []
+    # (2) tagged pairs (ConstPool.TaggingLemma): a fresh int per pair inside every container, any number per module
+    def taggable(p):
+        return pairs[p]["a"]["k"] != "atom" and pairs[p]["b"]["k"] != "atom"
+    per_tagged = 450
+    n_tagged = 2 if quick else 14
+    quota = per_tagged * n_tagged
+    chosen = []
+    for lst, share in ((hz, 0.3), (nm, 0.4), (sh, 0.15), (eq, 0.15)):
+        chosen += [p for p in lst if taggable(p)][:int(quota * share)]
+    rng.shuffle(chosen)
+    names, tnames = [], []
+    count = {"plain": 0, "tagged": 0, "hazard": 0, "near": 0}
+
+    def tally(p, kind):
+        count[kind] += 1
+        if hazard(p):
+            count["hazard"] += 1
+        if pairs[p]["near"]:
+            count["near"] += 1
     for i, layer in enumerate(layers):
         if not layer:
             continue
@@ -555,40 +604,59 @@ def plan_pool(tier, rng, rep, tlcs, mods, plans):
         exprs, cases = [], []
         for (ka, kb) in layer:
             exprs += [text_of[ka], text_of[kb]]
-            cases += [(ka, kb, 0), (ka, kb, 1)]
-            if pairs[(ka, kb)]["shared"] and not pairs[(ka, kb)]["obseq"]:
-                n_haz += 1
+            cases += [(ka, kb, 0, None), (ka, kb, 1, None)]
+            tally((ka, kb), "plain")
         name = "c09pool%d" % i
         mods.add(name, exprs, cases, per_fun=100)
         names.append(name)
-    if n_haz < 20:
-        core.die("ConstPool: only %d hazard pairs could be scheduled" % n_haz)
-    stats = {"constants": len(consts), "pairs_in_model": len(pairs), "pair_causes_in_model": causes,
-             "pairs_replayed": sum(len(l) for l in layers), "pairs_not_scheduled": dropped, "hazard_pairs_replayed": n_haz,
+    tag = TAG0
+    for i in range(0, len(chosen), per_tagged):
+        exprs, cases = [], []
+        for (ka, kb) in chosen[i:i + per_tagged]:
+            tag += 1
+            exprs += [L.render_const(consts[ka]["tc"], tag), L.render_const(consts[kb]["tc"], tag)]
+            cases += [(ka, kb, 0, tag), (ka, kb, 1, tag)]
+            tally((ka, kb), "tagged")
+        name = "c09tpool%d" % (i // per_tagged)
+        mods.add(name, exprs, cases, per_fun=100)
+        tnames.append(name)
+    if count["hazard"] < 40 or count["near"] < 40:
+        core.die("ConstPool: only %d hazard pairs / %d near misses could be scheduled" % (count["hazard"], count["near"]))
+    stats = {"constants": len(consts), "pairs_in_model": len(pairs), "pair_causes_in_model": causes, "near_miss_pairs_in_model": n_near_model,
+             "pairs_replayed_plain": count["plain"], "pairs_replayed_tagged": count["tagged"],
+             "hazard_pairs_replayed": count["hazard"], "near_miss_pairs_replayed": count["near"],
              "_consts": consts, "_pairs": pairs, "_names": names, "_text": text_of, "_want": want_of}
 
     def judge(out, mods_, judged):
-        for name in names:
+        for name in names + tnames:
             obs, err = out[name]
             chunk = mods_.meta[name][2]
             if err:
                 rep.disagree({"part": "pool", "form": "module", "stage": err.split(":")[0]}, "build-failed", {"module": name, "error": err})
                 continue
-            for (ka, kb, which), o in zip(chunk, obs):
+            for (ka, kb, which, tg), o in zip(chunk, obs):
                 r = pairs[(ka, kb)]
-                k = kb if which else ka
-                want = want_of[k]
+                if tg is None:
+                    wa, wb = want_of[ka], want_of[kb]
+                    ta, tb = text_of[ka], text_of[kb]
+                else:
+                    wa, wb = L.const_obs(consts[ka]["tobs"], tg), L.const_obs(consts[kb]["tobs"], tg)
+                    ta, tb = L.render_const(consts[ka]["tc"], tg), L.render_const(consts[kb]["tc"], tg)
+                want = wb if which else wa
+                src = r if which else consts[ka]       # the record that carries the model's prediction for this function
                 judged["n"] += 1
-                judged["nontrivial"].add(name + ":" + text_of[ka] + "|" + text_of[kb] + "|%d" % which)
+                judged["nontrivial"].add(ta + "|" + tb + "|%d" % which)
                 if o != want:
-                    first = which == 1 and o == want_of[ka]
-                    desc = {"part": "pool", "cause": r["cause"], "shared_in_model": r["shared"], "kind": r["a"]["k"],
-                            "position": "second" if which else "first"}
-                    rep.disagree(desc, "first-constant-returned" if first else classify(o, want),
-                                 {"first": text_of[ka], "second": text_of[kb], "returned_by": "second" if which else "first",
-                                  "want": want, "got": o, "module": name})
+                    pred = None
+                    if src["cause"] != "none":
+                        pred = L.const_obs(src["ret"]) if tg is None else L.const_obs(src["tret"], tg)
+                    desc = {"part": "pool", "cause": src["cause"], "shared_in_model": r["shared"], "kind": r["a"]["k"], "near_miss": r["near"],
+                            "position": "second" if which else "first", "tagged": tg is not None}
+                    rep.disagree(desc, "impl-model-value" if (pred is not None and o == pred) else classify(o, want),
+                                 {"first": ta, "second": tb, "returned_by": "second" if which else "first",
+                                  "want": want, "got": o, "impl_model": pred, "module": name})
                 elif which and r["shared"] and r["obseq"] and len([x for x in judged["samples"] if x["part"] == "pool"]) < 2:
-                    judged["samples"].append({"part": "pool", "first": text_of[ka], "second": text_of[kb], "expected": want, "got": o})
+                    judged["samples"].append({"part": "pool", "first": ta, "second": tb, "expected": want, "got": o})
     plans.append(judge)
     return stats
 
@@ -628,7 +696,7 @@ def real_pool_check(tier, rng, rep, mods, ps, cov):
                 first_on_line[r["line"]] = r
         groups = {}
         slot_of = {}
-        for (fn, j, line), (ka, kb, which) in zip(index, cases):
+        for (fn, j, line), (ka, kb, which, _tg) in zip(index, cases):
             k = kb if which else ka
             c = consts[k]["c"]
             r = first_on_line.get(line)
@@ -640,7 +708,7 @@ def real_pool_check(tier, rng, rep, mods, ps, cov):
                 continue
             groups.setdefault(r["slot"], []).append(c)
             slot_of[(ka, kb, which)] = r["slot"]
-        for (ka, kb, which) in cases:
+        for (ka, kb, which, _tg) in cases:
             if which and (ka, kb, 0) in slot_of and (ka, kb, 1) in slot_of:
                 fidelity["pairs"] += 1
                 real = slot_of[(ka, kb, 0)] == slot_of[(ka, kb, 1)]
